@@ -1034,6 +1034,40 @@ def vector_validator_rule(repo, rep):
                             tested.add(x.id)
     if len(tested) >= 2:
         rep.holds('R-SIBLING', key, where(f, f.node), 'hp2dec_v raises under a test of its minutes and seconds fields (%s)' % ', '.join(sorted(tested)))
+        # ... and the fields it tests are cut at the resolution the scalar reader uses: below 512 degrees an HP value has 13 decimals
+        # (10 of the value scaled by 1000); cut at 9, seconds of 59.999999999 become 60 and a VALID value is rejected
+        key2 = 'R-FORMAT::geodepy/angles.py::hp2dec_v::validation-places'
+        defs = {}
+        for n in ast.walk(f.node):
+            if isinstance(n, ast.Assign):
+                for t in n.targets:
+                    for x in ast.walk(t):
+                        if isinstance(x, ast.Name):
+                            defs.setdefault(x.id, []).append(n)
+        test_line = min(n.lineno for n in ast.walk(f.node) if isinstance(n, ast.If) and any(isinstance(b, ast.Raise) for b in n.body))
+        reach, todo = set(), list(tested)
+        rounds = []
+        while todo:
+            v = todo.pop()
+            if v in reach:
+                continue
+            reach.add(v)
+            for st in defs.get(v, []):
+                if st.lineno >= test_line:
+                    continue
+                for x in ast.walk(st.value):
+                    if isinstance(x, ast.Name) and x.id not in reach:
+                        todo.append(x.id)
+                    if isinstance(x, ast.Call) and isinstance(x.func, ast.Attribute) and x.func.attr == 'round' and x.args and isinstance(x.args[0], ast.Constant):
+                        rounds.append(x.args[0].value)
+        if rounds and max(rounds) >= 10:
+            rep.holds('R-FORMAT', key2, where(f, f.node), 'the validated fields are cut at %d decimals of the scaled value below 512 degrees (13 decimals of the HP value, as hp2dec reads them)' % max(rounds))
+        elif rounds:
+            rep.violated('R-FORMAT', key2, where(f, f.node), 'hp2dec_v validates fields cut at %d decimals of the scaled value (12 decimals of the HP value): hp2dec_v(numpy.array([12.3459999999999])) - '
+                         'minutes 34, seconds 59.999999999, valid and accepted by hp2dec - is rejected because the seconds round to 60' % max(rounds),
+                         expected='validation on .round(10) below 512 degrees', actual='.round(%d)' % max(rounds))
+        else:
+            rep.undecided('R-FORMAT', key2, where(f, f.node), 'no rounding found on the way to the validated fields')
     else:
         rep.violated('R-SIBLING', key, where(f, f.node), 'hp2dec_v never rejects an HP value: hp2dec_v(numpy.array([123.7])) returns 124.1666... (70 minutes carried into the degrees) where '
                      'hp2dec(123.7) raises "Invalid HP Notation" - the property has minutes / seconds fields of 60 or more rejected by the HP-to-decimal conversion',
